@@ -117,6 +117,8 @@ structure St where
   ready : List Tid := []          -- the loop's ready queue (task steps only)
   closed : Bool := false
   perm : List Key := []           -- what `random.shuffle` will do (set by the `shuffle` label)
+  pendingNew : List Cid := []     -- ghost: connections returned by `_create_connection` whose
+                                  -- on_connection_create_end callback has not returned yet
   mask : Nat := 0                 -- which trace hooks suspend: bit 0 reuseconn, 1 queued_start, 2 queued_end,
                                   -- 3 create_start, 4 create_end (0 = no traces)
 deriving Repr
@@ -289,7 +291,7 @@ def swapOrClosed (s : St) (t : Tid) (x : Task) (c : Cid) : St :=
                                  else sinsert (x.key, .conn c) (sremove (x.key, .ph t) s.perHost) }
     setTask s t { x with pc := .holding c }
 
-/-- the task resumes inside `connect` after a trace callback (`x` already has `tr := none`) -/
+/-- the task resumes inside `connect` after a trace callback (its record `x` already has `tr := none`) -/
 def resumeTrace (fx : Fixes) (s : St) (t : Tid) (x : Task) (h : Hook) : St :=
   let raise := x.extCancel || x.timedOut
   match h with
@@ -300,28 +302,41 @@ def resumeTrace (fx : Fixes) (s : St) (t : Tid) (x : Task) (h : Hook) : St :=
         -- `except BaseException: self._release_acquired(key, proto); raise` — proto is neither pooled nor closed
         let s := releaseAcquired (setTask s t { x with pc := .failed (failKind x) }) x.key (.conn c)
         if fx.trclose then closeConn s c else s
-      else setTask s t x
+      else s
     | _ => s
   | .qstart =>
-    if raise then failWait fx s t x
-    else if x.fut = .pending then setTask s t x      -- `await fut` suspends
-    else afterFut fx s t x
-  | .qend => if raise then failWait fx s t x else finishWait fx s t x
+    match x.pc with
+    | .waiting =>
+      if raise then failWait fx s t x
+      else if x.fut = .pending then s                -- `await fut` suspends
+      else afterFut fx s t x
+    | _ => s
+  | .qend =>
+    match x.pc with
+    | .waiting => if raise then failWait fx s t x else finishWait fx s t x
+    | _ => s
   | .cstart =>
-    if raise then releaseAcquired (setTask s t { x with pc := .failed (failKind x) }) x.key (.ph t)
-    else setTask s t x                               -- now `_create_connection` runs
+    match x.pc with
+    | .creating _ =>
+      if raise then releaseAcquired (setTask s t { x with pc := .failed (failKind x) }) x.key (.ph t)
+      else s                                         -- now `_create_connection` runs
+    | _ => s
   | .cend c =>
-    if raise then
-      let s := releaseAcquired (setTask s t { x with pc := .failed (failKind x) }) x.key (.ph t)
-      if fx.trclose then closeConn s c else s
-    else swapOrClosed s t x c
+    match x.pc with
+    | .creating _ =>
+      let s := { s with pendingNew := sremove c s.pendingNew }
+      if raise then
+        let s := releaseAcquired (setTask s t { x with pc := .failed (failKind x) }) x.key (.ph t)
+        if fx.trclose then closeConn s c else s
+      else swapOrClosed s t x c
+    | _ => s
 
 /-- one step of task `t` (the event loop calls its wake-up) -/
 def resume (fx : Fixes) (s : St) (t : Tid) (x : Task) : St :=
   match x.tr with
   | some (h, r) =>
     if !r && !(x.extCancel || x.timedOut) then s     -- callback neither returned nor cancelled: nothing to run
-    else resumeTrace fx s t { x with tr := none } h
+    else resumeTrace fx (setTask s t { x with tr := none }) t { x with tr := none } h
   | none =>
   match x.pc with
   | .start =>
@@ -339,7 +354,8 @@ def resume (fx : Fixes) (s : St) (t : Tid) (x : Task) : St :=
       | some true =>
         let c := s.conns.length
         let s := { s with conns := s.conns ++ [({ key := x.key } : Conn)] }
-        if hooked s 4 then setTask s t { x with tr := some (.cend c, false) }
+        if hooked s 4 then
+          setTask { s with pendingNew := c :: s.pendingNew } t { x with tr := some (.cend c, false) }
         else swapOrClosed s t x c
   | _ => s
 
